@@ -10,7 +10,7 @@
    exact on-edge points of long edges in Lemmas/Tolerance.v when present).  Curved boundaries:
    the code replaces arcs by chords at the control-point count (known finding F12) -- oracle
    only.  The arctan2 angle sum of the code is idealised as the crossing number (trusted). *)
-From SV Require Import Spec.Spec Lemmas.Winding Lemmas.C02Glue.
+From SV Require Import Spec.Spec Lemmas.Winding Lemmas.C02Glue Lemmas.Safe Lemmas.Constancy.
 Open Scope Q_scope.
 
 Theorem C02_polygon : forall S p b,
@@ -20,6 +20,27 @@ Theorem C02_polygon : forall S p b,
   spec_contains (region S p) b (contains_point S p b).
 Proof. exact contains_point_polygon. Qed.
 Print Assumptions C02_polygon.
+
+(* the tolerance premise discharged: every edge longer than the tolerance, and p exactly on an
+   edge or at least the tolerance away from its line (a quantifier-free, computable condition) *)
+Theorem C02_polygon_safe : forall S p b,
+  shape_lines S = true ->
+  (forall j, In j (jordans S) -> closed_chain j = true) ->
+  (forall j, In j (jordans S) -> safe_point_q j p) ->
+  spec_contains (region S p) b (contains_point S p b).
+Proof. exact contains_point_safe_q. Qed.
+Print Assumptions C02_polygon_safe.
+
+(* the winding number of the specification is locally constant: it does not change when the
+   point moves along ANY straight segment that does not meet the closed curve; so the region
+   classification is constant on every connected piece of the complement of the boundary *)
+Theorem C02_wn_locally_constant : forall j p q, closed_chain j = true -> seg_off j p q ->
+  wn_lines j p = wn_lines j q.
+Proof. exact wn_lines_move. Qed.
+Theorem C02_region_locally_constant : forall j p q, closed_chain j = true -> seg_off j p q ->
+  region_simple j p = region_simple j q.
+Proof. exact region_simple_move. Qed.
+Print Assumptions C02_region_locally_constant.
 
 (* Empty contains no point and Whole contains every point *)
 Theorem C02_empty_whole : forall p b, contains_point SEmpty p b = false /\ contains_point SWhole p b = true.
